@@ -128,6 +128,14 @@ func validDocs(u *universe, t *target, c *vf.Ctx, n int) []any {
 }
 
 var handDocs = map[string][]string{
+	// every pointer / interface position present (nil pointers are omitted by the encoder)
+	"Valid":     {`{"p":{"x":1,"y":2},"q":{"x":3,"y":4},"i":{"a":1,"b":"k"},"j":{"a":2,"b":""},"a":"0x01020304","u":[1,2,3],"c":{"type":0,"r":5},"s":{"type":1,"s":7,"n":"sq"},"cs":[{"type":49374,"v":1,"w":"0x01"},{"type":49374,"v":2,"w":""}],"ps":[{"x":1,"y":1},{"x":2,"y":2}],"is":[{"a":1,"b":"x"},{"a":2,"b":"y"}],"m":{"k1":{"x":1,"y":2},"k2":{"x":3,"y":4}},"mS":{"a":{"type":0,"r":1},"b":{"type":3,"data":"0x010203040506"}},"l":[{"type":0,"r":1},{"type":1,"s":2,"n":"n"}],"pL":[{"type":1,"v":"9"}]}`},
+	"ValidX":    {`{"l":[1,2,3],"m":{"1":2},"n":7,"s":"str","b":"0x0102"}`},
+	"VMap":      {`{"k1":{"x":1,"y":2},"k2":{"x":3,"y":4}}`},
+	"VShapeMap": {`{"a":{"type":0,"r":1},"b":{"type":2,"kids":[{"type":0,"r":2}]}}`},
+	"PtrPoint":  {`{"x":1,"y":2}`},
+	"PtrVItem":  {`{"a":1,"b":"k"}`},
+	"Opts":      {`{"p":{"x":1,"y":2},"s":{"type":0,"r":5},"q":{"x":3,"y":4},"r":{"b":true,"i8":1,"i16":2,"i32":3,"i64":"4","u8":5,"u16":6,"u32":7,"u64":"8","f32":"1.5","f64":"2.5"},"t":{"type":1,"v":"9"}}`},
 	// fully populated: every byte-slice / byte-array / pointer-to-array / numeric-string / big-int position exists
 	"ByteArrs":   {`{"a":["0x0a11181f","0x99007f80"],"h":{"data":"0x7f0174e60100","type":3},"i":{"data":"0x018039807fe67fff","type":9},"l":["0x0001ff01"],"lI":[{"data":"0x7f5500017f7f8000","type":9}],"lP":["0x7f7f0180"],"m":{"ezg":"0x7f9a80ff"},"mA":{"fjz":"0x805c"},"mI":{"gv":{"data":"0x7f808080ffff7f7f","type":9}},"p":"0x57808000","q":"0x000101","s":{"data":"0x017f0101ff00","type":3},"sL":[{"data":"0x7f7f0012716c","type":3}],"v":"0x0180ff00","w":"0x80797ff220"}`},
 	"ByteFields": {`{"a":"0x01","b":"0x0203","c":"0x04","d":"0x01020304","e":"0x0000000000000000000000000000000000000000000000000000000000000001","f":"0x05","g":{"data":"0x0102030405060708","type":9}}`},
@@ -211,7 +219,7 @@ func genBatch(c *vf.Ctx, u *universe, name string) []Case {
 					cs := mkCase("json", t.name, val, in, org)
 					cs.Org = fmt.Sprintf("%s #%d", org, di)
 					out = append(out, cs)
-					if k%4 == 0 {
+					if k%4 == 0 || strings.Contains(org, "->null@") {
 						cs.Fam = "map"
 						out = append(out, cs)
 					}
@@ -329,6 +337,17 @@ func runCase(c *vf.Ctx, r *runner, cs *Case, cal *calib, perFP map[string]int) {
 				cal.LongMaxOver[key] = o.alloc
 			}
 		}
+	}
+	if validatorCalls > 0 {
+		c.Count("calls_reaching_a_registered_validator", 1)
+		c.Count("validator_invocations", validatorCalls)
+	}
+	if strings.Contains(cs.Org, "->null@") {
+		c.Count("null_mutants_tried:"+cs.Fam, 1)
+		if cs.Val {
+			c.Count("null_mutants_validation_on", 1)
+		}
+		c.Count("null_mutants_"+out, 1)
 	}
 	c.Count("mutation:"+cs.kind(), 1)
 	for _, cl := range []string{"hexlen", "numstr", "hexform", "long", "short"} {
@@ -576,7 +595,7 @@ func run(c *vf.Ctx) {
 		replay(c)
 		return
 	}
-	c.SetRule("each evaluation is one call of a decoder entry point (serix.Decode into one of ~55 registered destination types incl. ds.Set/SerializableOrderedMap.Decode; JSONDecode/MapDecode; 19 Deserializer primitives and chains of them; 10 stream Read* helpers; typeutils) on one input, in a GOMAXPROCS=1 child under ulimit -v, observed by recover, returned (n, err), MemStats.TotalAlloc delta and a count of element-decoder invocations. Binary inputs: seeded valid encodings, every truncation, 8/16/32-bit substitution of {0,1,2,3,±1,0x7f..,0xff..,2^28,…} at every (sampled above 40/120 bytes) offset, bit flips, splices, insert/delete, random strings 0–64 bytes; JSON: every node of every valid document replaced by every other JSON kind and by out-of-range/fractional/negative numbers and bad hex / numeric strings; every string node additionally by well-formed 0x-hex decoding to 0, 1, N-1, N+1, 2N, 1000 (and 3/5/9/31/33) bytes where N is the original decoded length, by numeric-string spellings (too many digits, leading zeros, signs, exponent, blanks, int64/uint64 borders), by every string of length 0..3 over the alphabet {0,x,X,1,a,g,-,+,.,e} (first and hand-written fully populated documents; also fed directly to serix.DecodeHex/DecodeUint256/DecodeUint64), by hex-form ambiguities (no prefix, odd digits, upper case, 256/257-bit quantities) and, in the first document of each target, by 64 KiB strings (plain, digits, valid hex); every member removed, extra members; all x validation on/off. Long inputs for every family (stream helpers through plain, one-byte, 4096- and 4097-byte-chunk readers; Deserializer byte-slice/string/sequence/payload primitives; serix []byte/string/[]uint16/map/[]custom destinations with uint16/uint32 prefixes; JSON strings): 4 KiB, 4 KiB+1, 8 KiB, 64 KiB and 1 MiB of real data behind a prefix denoting exactly the data, data±1, 2x, 2^28, 2^31, the maximum of the width and (uint64) 2^40, 2^63-1, 2^63; for these the allocation bound is additionally capped at 16 MiB + K*len (K=16, element-wise serix 64; measured maxima in calibration). distinct_nontrivial counts distinct (family, target, validation, mutation kind, outcome class) tuples, outcome class = accepted | panic | root error message with numbers stripped – i.e. distinct decoder behaviours actually reached per target and mutation")
+	c.SetRule("each evaluation is one call of a decoder entry point (serix.Decode into one of ~55 registered destination types (several with registered syntactic validators, reached through optional / non-optional pointer fields, slices of pointers with MustOccur / uniqueness / ordering rules, map values, top-level pointers) incl. ds.Set/SerializableOrderedMap.Decode; JSONDecode/MapDecode; 19 Deserializer primitives and chains of them; 10 stream Read* helpers; typeutils) on one input, in a GOMAXPROCS=1 child under ulimit -v, observed by recover, returned (n, err), MemStats.TotalAlloc delta and a count of element-decoder invocations. Binary inputs: seeded valid encodings, every truncation, 8/16/32-bit substitution of {0,1,2,3,±1,0x7f..,0xff..,2^28,…} at every (sampled above 40/120 bytes) offset, bit flips, splices, insert/delete, random strings 0–64 bytes; JSON: every node of every valid document replaced by every other JSON kind and by out-of-range/fractional/negative numbers and bad hex / numeric strings; every string node additionally by well-formed 0x-hex decoding to 0, 1, N-1, N+1, 2N, 1000 (and 3/5/9/31/33) bytes where N is the original decoded length, by numeric-string spellings (too many digits, leading zeros, signs, exponent, blanks, int64/uint64 borders), by every string of length 0..3 over the alphabet {0,x,X,1,a,g,-,+,.,e} (first and hand-written fully populated documents; also fed directly to serix.DecodeHex/DecodeUint256/DecodeUint64), by hex-form ambiguities (no prefix, odd digits, upper case, 256/257-bit quantities) and, in the first document of each target, by 64 KiB strings (plain, digits, valid hex); every member removed, extra members; all x validation on/off. Long inputs for every family (stream helpers through plain, one-byte, 4096- and 4097-byte-chunk readers; Deserializer byte-slice/string/sequence/payload primitives; serix []byte/string/[]uint16/map/[]custom destinations with uint16/uint32 prefixes; JSON strings): 4 KiB, 4 KiB+1, 8 KiB, 64 KiB and 1 MiB of real data behind a prefix denoting exactly the data, data±1, 2x, 2^28, 2^31, the maximum of the width and (uint64) 2^40, 2^63-1, 2^63; for these the allocation bound is additionally capped at 16 MiB + K*len (K=16, element-wise serix 64; measured maxima in calibration). distinct_nontrivial counts distinct (family, target, validation, mutation kind, outcome class) tuples, outcome class = accepted | panic | root error message with numbers stripped – i.e. distinct decoder behaviours actually reached per target and mutation")
 	u := newUniverse()
 	bs := batchNames(u)
 	if only := os.Getenv("C02_ONLY"); only != "" { // debugging aid: restrict to batches with this prefix
@@ -615,6 +634,10 @@ func run(c *vf.Ctx) {
 	c.Require("hexform_mutants_tried", 2000)
 	c.Require("long_mutants_tried", 100)
 	c.Require("short_mutants_tried", 50000)
+	c.Require("calls_reaching_a_registered_validator", 5000)
+	c.Require("null_mutants_tried:json", 2000)
+	c.Require("null_mutants_tried:map", 2000)
+	c.Require("null_mutants_validation_on", 2000)
 	c.Require("short_mutants_accepted", 500)
 	c.Require("long_input_cases:stream", 1000)
 	c.Require("long_input_cases:prim", 400)
